@@ -1,4 +1,5 @@
 import Kio.Model.Codec
+import Kio.Model.Records
 /-!
 Which variant of the repaired behaviours the *current* /repo tree has (DESIGN §7).  Hand-set to
 describe the code as it is; the correspondence check is what verifies it on every run.
@@ -15,5 +16,8 @@ def Env.current (codes : List Int) : Env :=
   { errorCodes := codes,
     time := { tdExact := true, dtExact := true, dtMillis := true },
     skipUnknownTags := false }
+
+/-- the record-batch code as it is now -/
+def RecCfg.current : RecCfg := RecCfg.repaired
 
 end Kio
